@@ -38,7 +38,7 @@ def check(run):
         rfailed += f_
     if D.canary(run, "fitting/test_all_Fisher.py", "main", (lambda: c_fisher.main_rows_contract("ok"))) is False:
         raise RuntimeError("canary verified: engine vacuous on test_all_Fisher.main rows region")
-    rr = run.harness("rt_rows.py", {"mode": "fisher_rows", "seed": run.seed, "K": [4, 5, 6] if run.tier == "quick" else [1, 2, 3, 4, 5, 6, 7]}, timeout=900)
+    rr = run.harness("rt_rows.py", {"mode": "fisher_rows", "seed": run.seed, "K": [4, 5, 6] if run.tier == "quick" else [4, 5, 6, 7, 8]}, timeout=900)
     run.add_bounded("test_all_Fisher.main: row i of both output files = the results of convert_params for function i; Hessian file has K (K + 1) / 2 columns",
                     "esr/fitting/test_all_Fisher.py::main", "synthetic fit results with K parameter columns (K > 4 is what complexities >= 11 produce), 0..K-parameter linear functions, one rank",
                     rr["cases"], rr["distinct"], len(rr["failures"]))
